@@ -172,6 +172,8 @@ def _alphabet(m):
     ops.append(['get', last])
     ops.append(['eval', sorted(m['inputs'])[0]])
     ops.append(['newev'])
+    # two evaluators that stay alive side by side on the one model
+    ops.append(['other'])
     return ops
 
 
@@ -230,10 +232,16 @@ def _build(d, maxsteps):
             clo = sorted(x for x in GM.closure(model, [c])
                          if x in model['inputs'])
             hist.append(['eval', c])
+            sw = d.pick(3) == 0
             if clo:
+                if sw:
+                    # the set goes through ANOTHER evaluator of the model
+                    hist.append(['other'])
                 hist.append(['set', d.choice(clo),
                              d.choice([0, 1, -3, 2.5, 10, 100, 7, 42, 1.0, 0.0,
                                    7.0])])
+            if sw and clo and d.pick(3):
+                hist.append(['other'])
             if d.pick(3) == 0:
                 hist.append(['eval', d.choice(model['order'])])
             hist.append(['eval', c])
@@ -249,7 +257,7 @@ def _build(d, maxsteps):
         elif k < 9:
             hist.append(['eval', d.choice(cells)])
         else:
-            hist.append(['newev'])
+            hist.append(d.choice([['newev'], ['other'], ['other']]))
     if model['order']:
         hist.append(['eval', model['order'][-1]])
     return {'model': model, 'history': hist}
@@ -310,12 +318,20 @@ def judge(case):
     nontrivial = False
     last_known = {}         # addr -> last value set or computed (tag)
     alt = {}                # addr -> values it may have been recomputed to
+    other = [None]
     for step, op in enumerate(hist):
         kind = op[0]
         if kind == 'newev':
             ev = xl.Evaluator(m)
             continue
-        via = ':by-name' if kind != 'newev' and op[1] in names else ''
+        if kind == 'other':
+            # switch to the second of two evaluators sharing the model (the
+            # first stays alive and is switched back to by the next 'other')
+            if other[0] is None:
+                other[0] = xl.Evaluator(m)
+            ev, other[0] = other[0], ev
+            continue
+        via = ':by-name' if op[1] in names else ''
         if kind == 'set':
             _, target, v = op
             a = names.get(target, target)
